@@ -25,8 +25,8 @@ import cbor2  # noqa: E402
 # in known_findings.json.  Printed as PENDING-FINDING; they do not fail the run.
 PENDING_FINDINGS = {
     'C19/asserts-forwarded-but-forwarding-failed':
-        'the status report of a bundle whose forwarding FAILED (no transmit route, CL not attached, fragmentation infeasible, '
-        'block insertion raised) asserts "forwarded" next to "deleted": the receive routing step records the forward action '
+        'the status report of a bundle whose forwarding FAILED (no transmit route, CL not attached, fragmentation '
+        'infeasible) asserts "forwarded" next to "deleted": the receive routing step records the forward action '
         'before anything is sent (Coq: C19_content_refuted)',
     'C19/subject-timestamp-rewritten/creation-time-0-forwarded':
         'a forwarded bundle whose creation time is 0 gets a fresh creation timestamp from _apply_primary; the status report '
@@ -56,8 +56,8 @@ OUTCOMES = {
     'forward-cl-not-attached': dict(rx=[['^dtn://dst/', 'forward']], tx=[dict(pattern='^dtn://dst/', cl_type='absent')], dest='dtn://dst/app'),
     'forward-creation-time-0': dict(rx=[['^dtn://dst/', 'forward']], tx=[dict(pattern='^dtn://dst/', mtu=None)], dest='dtn://dst/app',
                                     extra=dict(time=0)),
-    'forward-block-insertion-raises': dict(rx=[['^dtn://dst/', 'forward']], tx=[dict(pattern='^dtn://dst/', mtu=None)], dest='dtn://dst/app',
-                                           extra=dict(blocks=[dict(type=10, num=2, data_hex=HOP)], prep=1), warmup=True),
+    'forward-with-extension-block-number-2': dict(rx=[['^dtn://dst/', 'forward']], tx=[dict(pattern='^dtn://dst/', mtu=None)], dest='dtn://dst/app',
+                                                  extra=dict(blocks=[dict(type=10, num=2, data_hex=HOP)]), warmup=True),
     'forward-of-a-fragment': dict(rx=[['^dtn://dst/', 'forward']], tx=[dict(pattern='^dtn://dst/', mtu=None)], dest='dtn://dst/app',
                                   extra=dict(frag=[3, 20])),
     'delete-by-route': dict(rx=[['^dtn://dst/', 'delete']], tx=[], dest='dtn://dst/app'),
